@@ -1304,3 +1304,29 @@ def pipeline_filters(F, fn, op, depth=0, seen=None):
         if any(c.endswith(x) for x in PIPE_ADAPTORS) and t[2]:
             out += pipeline_filters(F, o.fn, t[2][0], depth + 1, seen)
     return out
+
+def pipeline_element_sources(F, closure_fn):
+    """For a closure handed to an iterator consumer/adaptor (`.for_each(c)`, `.try_for_each(c)`, `.map(c)`, ...): where the elements
+    it receives are produced - [(fn, operand)] of the nearest upstream `.map(..)` / `.filter_map(..)` closure's return value.
+    Empty when the elements come straight from a collection."""
+    parent = F.fn(closure_fn.parent) if closure_fn.parent else None
+    if parent is None: return []
+    out = []
+    for bi, t in parent.calls():
+        if len(t[2]) < 2: continue
+        if not any(o.kind == "agg" and rv_at(o.fn, *o.data)[1].get("path") == closure_fn.path for o in trace_op(parent, t[2][1], transparent=())): continue
+        work = [t[2][0]]; seen = set()
+        while work:
+            op = work.pop()
+            for o in trace_op(parent, op, transparent=TRANSPARENT + ("IntoIterator>::into_iter", "::into_iter", "::by_ref")):
+                if o.kind != "call" or (o.fn.path, o.data) in seen: continue
+                seen.add((o.fn.path, o.data))
+                t2 = o.fn.blocks[o.data]["t"]; c2 = callee(t2) or ""
+                if (c2.endswith("Iterator::map") or c2.endswith("Iterator::filter_map")) and len(t2[2]) > 1:
+                    for o3 in trace_op(parent, t2[2][1], transparent=()):
+                        if o3.kind == "agg" and rv_at(o3.fn, *o3.data)[1].get("k") == "closure":
+                            c3 = F.fn(rv_at(o3.fn, *o3.data)[1]["path"])
+                            if c3 is not None: out.append((c3, ["cp", [0]]))
+                    continue
+                if any(c2.endswith(x) for x in PIPE_ADAPTORS) and t2[2]: work.append(t2[2][0])
+    return out
